@@ -129,6 +129,15 @@ def run(ctx):
                 cluster_idx, performed_it = model.fit_fast(data, monitor_distances=monitor)
             else:
                 cluster_idx, performed_it = model.fit(data, use_parallel=parallel, monitor_distances=monitor)
+            if rng.random() < 0.3:
+                # a second fit on the same object (other random draws): its result alone is judged below and must be a
+                # fresh partition with nearest means, not an accumulation on top of the first one
+                np.random.seed(seed + 7919)
+                pyrandom.seed(seed + 7919)
+                del trace[:]
+                wit["second_fit_on_the_same_object"] = True
+                cluster_idx, performed_it = model.fit(data, use_parallel=parallel, monitor_distances=monitor)
+                ctx.count("refits_on_the_same_object")
         except Exception as e:
             ctx.violation("exception", fn="KMeans.fit", error=repr(e)[:300], **wit)
             continue
